@@ -316,7 +316,37 @@ def _rank_regex(db, chk, tf, tm, ta):
     early = [r for r in walk_no_nested(u0) if isinstance(r, ast.Return)]
     chk.ob(rule, "update_trace_rank rewrites the file for EVERY rank value (rank 0 included): no truthiness test on rank, no early return", not falsy and not early, tf.loc(u0),
            found={"truthiness tests": falsy, "returns": len(early)}, accepted="read -> set rank -> write, unconditionally", why="`if not rank: return` makes re-numbering a file to rank 0 a no-op")
-    ur = tf.func("update_trace_rank._add_rank_meta")
-    t = ast.unparse(ur).replace(" ", "")
-    chk.ob(rule, "update_trace_rank stores the rank under distributedInfo.rank (the key the reader searches)", "trace_data['distributedInfo']['rank']=rank" in t and "trace_data['distributedInfo']={'rank':rank}" in t, tf.loc(ur),
-           found=[ast.unparse(s)[:80] for s in ast.walk(ur) if isinstance(s, ast.Assign)], accepted=["trace_data['distributedInfo']['rank'] = rank", "trace_data['distributedInfo'] = {'rank': rank}"])
+    # stores into the metadata block, wherever they are written (helper or inline): the rank FIELD is set; the whole block is created only when absent
+    field, block = [], []
+    for n in ast.walk(u0):
+        if isinstance(n, ast.Assign) and len(n.targets) == 1:
+            mf = H.match("$d['distributedInfo']['rank'] = $$v", n)
+            mb = H.match("$d['distributedInfo'] = $$v", n)
+            if mf is not None:
+                field.append((n, mf))
+            elif mb is not None:
+                block.append((n, mb))
+
+    def absent_guard(n):
+        """is n inside the branch taken only when the block is absent?"""
+        cur, child = tf.parent.get(id(n)), n
+        while cur is not None and cur is not u0:
+            if isinstance(cur, ast.If):
+                inb = any(child is x or any(child is y for y in ast.walk(x)) for x in cur.body)
+                if H.match("'distributedInfo' in $d", cur.test) is not None and not inb:
+                    return True
+                if H.match("'distributedInfo' not in $d", cur.test) is not None and inb:
+                    return True
+                if isinstance(cur.test, ast.UnaryOp) and isinstance(cur.test.op, ast.Not) and H.match("'distributedInfo' in $d", cur.test.operand) is not None and inb:
+                    return True
+            child, cur = cur, tf.parent.get(id(cur))
+        return False
+    unguarded = [ast.unparse(n) for n, _ in block if not absent_guard(n)]
+    okblock = all(isinstance(m["__mvx_v"], ast.Dict) and [H.str_const(k) for k in m["__mvx_v"].keys] == ["rank"] for _, m in block)
+    verdict = bool(field) and not unguarded and okblock
+    if not field and not block:
+        verdict = None
+    chk.ob(rule, "update_trace_rank sets distributedInfo.rank (the key the reader searches) and creates the block only when the file has none", verdict, tf.loc(u0),
+           found={"field stores": [ast.unparse(n) for n, _ in field], "block stores": [ast.unparse(n) for n, _ in block], "block stores outside an 'absent' branch": unguarded},
+           accepted=["d['distributedInfo']['rank'] = rank  (block present)", "d['distributedInfo'] = {'rank': rank}  (only when 'distributedInfo' not in d)"],
+           why="overwriting an existing block drops backend, world_size and the other entries the profiler recorded")
